@@ -20,6 +20,105 @@ def cl(x):
     return [[float(z.real), float(z.imag)] for z in x]
 
 
+# ---------------------------------------------------------------------- log of the calls of measurement methods
+CALL_LOG = []
+
+
+def summ(v):
+    """short class of an argument value (for the coverage table method x option -> values reached)"""
+    if v is None:
+        return 'None'
+    if isinstance(v, (bool, np.bool_)):
+        return str(bool(v))
+    if isinstance(v, (int, np.integer)):
+        return str(int(v))
+    if isinstance(v, (float, np.floating)):
+        return 'inf' if np.isinf(v) else repr(float(v))
+    if isinstance(v, str):
+        return repr(v)
+    if isinstance(v, (list, tuple, range, np.ndarray)):
+        v = list(v)
+        k = 'len%d' % len(v) if len(v) < 4 else 'len4+'
+        if v and all(isinstance(x, (int, np.integer)) and not isinstance(x, (bool, np.bool_)) for x in v):
+            d = [int(b) - int(a) for a, b in zip(v[:-1], v[1:])]
+            kind = 'single' if len(v) == 1 else 'unsorted' if any(x <= 0 for x in d) else 'consec' if all(x == 1 for x in d) else 'gaps'
+            return 'ints:%s:%s' % (kind, k)
+        if v and all(isinstance(x, str) for x in v):
+            return 'strs:' + k
+        if v and all(isinstance(x, (list, tuple)) and len(x) == 2 and isinstance(x[0], str) and isinstance(x[1], (int, np.integer)) for x in v):
+            return 'term:' + k
+        return 'seq:' + k
+    return type(v).__name__
+
+
+def call(obj, name, *args, **kw):
+    """obj.name(*args, **kw); a call that returns is logged as (class, method, {parameter: class of the value | 'default'})"""
+    import inspect
+    from tenpy.networks.mps import MPSEnvironment
+    f = getattr(obj, name)
+    res = f(*args, **kw)
+    opts = {}
+    try:
+        sig = inspect.signature(f)
+        given = sig.bind(*args, **kw).arguments
+        for pn, par in sig.parameters.items():
+            if par.kind == par.VAR_KEYWORD:
+                for k_, v_ in given.get(pn, {}).items():
+                    opts[k_] = summ(v_)
+                opts.setdefault(pn, 'default' if not given.get(pn) else 'given')
+            else:
+                opts[pn] = summ(given[pn]) if pn in given else 'default'
+    except (TypeError, ValueError):
+        opts = {k_: summ(v_) for k_, v_ in kw.items()}
+    CALL_LOG.append(['MPSEnvironment' if isinstance(obj, MPSEnvironment) else 'MPS', name, opts])
+    return res
+
+
+def nval(x):
+    """Renyi index from JSON ('inf' -> numpy.inf)"""
+    return np.inf if x == 'inf' else x
+
+
+def entropy_dense(p, n):
+    """documentation of tenpy.tools.math.entropy: Shannon entropy (n=1), -log(max p) (n=inf), log(sum p^n)/(1-n) otherwise"""
+    p = np.asarray(p, dtype=float)
+    p = p[p > 1e-16]
+    if n == 1:
+        return float(-np.sum(p * np.log(p)))
+    if n == np.inf:
+        return float(-np.log(np.max(p)))
+    return float(np.log(np.sum(p ** n)) / (1. - n))
+
+
+def ent_tol(n):
+    # eigenvalues of the order of the rounding errors (1e-17) of rank-deficient density matrices contribute 1e-17^n
+    return 1e-6 if n < 1 else 1e-8
+
+
+def rho_eigs(rho):
+    return np.linalg.eigvalsh((rho + rho.conj().T) / 2).clip(0, None)
+
+
+def schmidt_probs(ref, psi, b):
+    """squared Schmidt values of the cut left of site b (0 <= b <= L), from the dense window tensor"""
+    L = ref.L
+    lo, n = (-1, L + 2) if psi.bc == 'infinite' else (0, L)
+    key = ('dense_window', lo, n)
+    if key not in ref.cache:
+        ref.cache[key] = gen.dense_window(psi, lo, n)
+    th = ref.cache[key]
+    k = b - lo
+    rows = int(np.prod(th.shape[:1 + k]))
+    return np.linalg.svd(th.reshape(rows, -1), compute_uv=False) ** 2
+
+
+def kw_of(m):
+    kw = dict(m.get('kw', {}))
+    if 'n' in kw:
+        kw['n'] = nval(kw['n'])
+    return kw
+
+
 class Ref:
     """dense reference of a (bra, ket) pair on a chain"""
 
@@ -112,7 +211,7 @@ def measure(ref, psi_or_env, m, rng):
     obj = psi_or_env
     if k == 'ev':
         ops, sites = m['ops'], m.get('sites')
-        got = obj.expectation_value(ops if len(ops) > 1 else ops[0], sites)
+        got = call(obj, 'expectation_value', ops if len(ops) > 1 else ops[0], sites) if sites is not None else call(obj, 'expectation_value', ops if len(ops) > 1 else ops[0])
         ss = sites if sites is not None else list(range(L))
         want = [ref.words(i, [[ops[(i % L) % len(ops)]]]) for i in ss]
         return {'got': cl(got), 'want': cl(want)}
@@ -125,24 +224,32 @@ def measure(ref, psi_or_env, m, rng):
             if m.get('axes'):
                 labels = (['x%d' % t for t in range(n)], ['y%d' % t for t in range(n)])
                 op = npc_product_op(chain, i, nm, labels)
-                got.append(obj.expectation_value(op, [i], axes=labels)[0])
+                got.append(call(obj, 'expectation_value', op, [i], axes=labels)[0])
             else:
                 op = npc_product_op(chain, i, nm)
-                got.append(obj.expectation_value(op, [i])[0])
+                got.append(call(obj, 'expectation_value', op, [i])[0])
             want.append(ref.words(i, [[x] for x in nm]))
         return {'got': cl(got), 'want': cl(want)}
     if k == 'ev_multi_sites':
-        got = obj.expectation_value_multi_sites(m['ops'], m['i0'])
+        got = call(obj, 'expectation_value_multi_sites', m['ops'], m['i0'])
         return {'got': cl([got]), 'want': cl([ref.words(m['i0'], [[x] for x in m['ops']])])}
     if k == 'ev_term':
         term = [(a, int(b)) for a, b in m['term']]
-        got = obj.expectation_value_term(term, autoJW=m.get('autoJW', True))
-        return {'got': cl([got]), 'want': cl([ref.term(term)])}
+        got = call(obj, 'expectation_value_term', term, **({'autoJW': m['autoJW']} if 'autoJW' in m else {}))
+        if m.get('autoJW', True):
+            want = ref.term(term)
+        else:       # no Jordan-Wigner strings: the plain product of the operators (per site in the order of the term)
+            lo = min(i for _, i in term)
+            words = [[] for _ in range(max(i for _, i in term) - lo + 1)]
+            for a, i in term:
+                words[i - lo].append(a)
+            want = ref.words(lo, words)
+        return {'got': cl([got]), 'want': cl([want])}
     if k == 'terms_sum':
         from tenpy.networks.terms import TermList
         terms = [[(a, int(b)) for a, b in t] for t in m['terms']]
         tl = TermList(terms, m['strength'])
-        got, _ = obj.expectation_value_terms_sum(tl)
+        got, _ = call(obj, 'expectation_value_terms_sum', tl)
         want = sum(s * ref.term(t) for t, s in zip(terms, m['strength']))
         return {'got': cl([got]), 'want': cl([want])}
     if k == 'corr':
@@ -152,7 +259,7 @@ def measure(ref, psi_or_env, m, rng):
         s2 = kw.get('sites2', list(range(L)))
         s1 = list(range(s1)) if isinstance(s1, int) else sorted(s1)
         s2 = list(range(s2)) if isinstance(s2, int) else sorted(s2)
-        got = obj.correlation_function(o1 if len(o1) > 1 else o1[0], o2 if len(o2) > 1 else o2[0], **kw)
+        got = call(obj, 'correlation_function', o1 if len(o1) > 1 else o1[0], o2 if len(o2) > 1 else o2[0], **kw)
         opstr = kw.get('opstr')
         sof = kw.get('str_on_first', True)
         want = np.empty((len(s1), len(s2)), dtype=complex)
@@ -183,17 +290,48 @@ def measure(ref, psi_or_env, m, rng):
         return {'got': cl(got), 'want': cl(want), 'shape': list(np.shape(got))}
     if k == 'corr_words':     # bridge to the Coq model: per-site words computed by Model/Corr.v
         kw = dict(m.get('kwargs', {}))
-        got = obj.correlation_function(m['op1'], m['op2'], sites1=[m['i']], sites2=[m['j']], **kw)
+        got = call(obj, 'correlation_function', m['op1'], m['op2'], sites1=[m['i']], sites2=[m['j']], **kw)
         return {'got': cl(got), 'want': cl([ref.words(m['lo'], m['words'])])}
     if k in ('tcf_right', 'tcf_left'):
         tL = [(a, int(b)) for a, b in m['term_L']]
         tR = [(a, int(b)) for a, b in m['term_R']]
+        auto = m.get('autoJW', True)
+        kw = {} if 'autoJW' not in m else {'autoJW': auto}
+        if not auto and 'opstr' in m:
+            kw['opstr'] = m['opstr']
+
+        def value(iL, jR):
+            full = [(a, i + iL) for a, i in tL] + [(a, i + jR) for a, i in tR]
+            if auto:
+                return ref.term(full)
+            # documented for autoJW=False: no Jordan-Wigner strings; opstr on every site between the two terms
+            lo, hi = min(i for _, i in full), max(i for _, i in full)
+            words = [[] for _ in range(hi - lo + 1)]
+            for a, i in full:
+                words[i - lo].append(a)
+            if m.get('opstr'):
+                for r in range(max(i for _, i in tL) + iL + 1, min(i for _, i in tR) + jR):
+                    words[r - lo].append(m['opstr'])
+            return ref.words(lo, words)
         if k == 'tcf_right':
-            got = obj.term_correlation_function_right(tL, tR, m['i_L'], m['j_R'], autoJW=m.get('autoJW', True))
-            want = [ref.term([(a, i + m['i_L']) for a, i in tL] + [(a, i + j) for a, i in tR]) for j in sorted(m['j_R'])]
+            jR = m.get('j_R')
+            if jR is None:
+                # documented default: finite: range(j0, L), term_R (here on one site) starting one site right of term_L;
+                # infinite: range(L, 11*L, L)
+                assert all(i == 0 for _, i in tR)
+                jR = list(range(m['i_L'] + max(i for _, i in tL) + 1, L)) if obj.finite else list(range(L, 11 * L, L))
+                got = call(obj, 'term_correlation_function_right', tL, tR, m['i_L'], **kw)
+            else:
+                got = call(obj, 'term_correlation_function_right', tL, tR, m['i_L'], jR, **kw)
+            want = [value(m['i_L'], j) for j in sorted(jR)]
         else:
-            got = obj.term_correlation_function_left(tL, tR, m['i_L'], m['j_R'], autoJW=m.get('autoJW', True))
-            want = [ref.term([(a, i + iL) for a, i in tL] + [(a, i + m['j_R']) for a, i in tR]) for iL in sorted(m['i_L'], reverse=True)]
+            iL = m.get('i_L')
+            if iL is None:      # documented default (infinite): range(-L, -11*L, -L)
+                iL = list(range(-L, -11 * L, -L))
+                got = call(obj, 'term_correlation_function_left', tL, tR, j_R=m['j_R'], **kw)
+            else:
+                got = call(obj, 'term_correlation_function_left', tL, tR, iL, m['j_R'], **kw)
+            want = [value(i_, m['j_R']) for i_ in sorted(iL, reverse=True)]
         return {'got': cl(got), 'want': cl(want)}
     if k == 'tlcf_right':
         # <bra| (sum_a s_a A_a)(i_L) (sum_b t_b B_b)(j) |ket> for j in sorted(j_R): the double sum of dense term values.  Documented
@@ -206,7 +344,7 @@ def measure(ref, psi_or_env, m, rng):
         auto = m.get('autoJW', True)
         kw = {} if auto else {'autoJW': False, 'opstr': m.get('opstr')}
         i_L = m['i_L']
-        got = obj.term_list_correlation_function_right(TermList(tLs, sL), TermList(tRs, sR), i_L, m['j_R'], **kw)
+        got = call(obj, 'term_list_correlation_function_right', TermList(tLs, sL), TermList(tRs, sR), i_L, m['j_R'], **kw)
         jR = m['j_R']
         if jR is None:       # documented default (finite): the right list starts one site right of the left list, up to the end
             max_L = max(i for t in tLs for _, i in t)
@@ -245,20 +383,17 @@ def measure(ref, psi_or_env, m, rng):
         return {'got': cl(got), 'want': cl(want), 'max_part': [float(x) for x in parts]}
     if k == 'ent':
         # Schmidt decomposition of the dense state at every bond (finite chain)
-        n_ = m.get('n', 1)
+        n_ = nval(m.get('n', 1))
         lo0, docs, tb, tk = ref.window(0, L - 1)
         dims = [d.dim for d in docs]
         v = tk.reshape(-1)
 
         def ent(p):
-            p = p[p > 1e-30]
-            if n_ == 1:
-                return float(-np.sum(p * np.log(p)))
-            return float(np.log(np.sum(p ** n_)) / (1. - n_))
-        got = list(obj.entanglement_entropy(n=n_))
+            return entropy_dense(p, n_)
+        got = list(call(obj, 'entanglement_entropy', n=n_))
         want, spec_got, spec_want = [], [], []
-        spectrum = obj.entanglement_spectrum(by_charge=False)
-        by_q = obj.entanglement_spectrum(by_charge=True)
+        spectrum = call(obj, 'entanglement_spectrum', by_charge=False)
+        by_q = call(obj, 'entanglement_spectrum', by_charge=True)
         for b in range(1, L):
             sv = np.linalg.svd(v.reshape(int(np.prod(dims[:b])), -1), compute_uv=False)
             want.append(ent(sv ** 2))
@@ -269,12 +404,107 @@ def measure(ref, psi_or_env, m, rng):
             for arr, dest in ((p_got, spec_got), (p_q, spec_got), (p_want, spec_want), (p_want, spec_want)):
                 dest.extend(list(arr[:n_max]) + [0.0] * (n_max - len(arr)))
         seg = sorted(m['segment'])
-        got.append(obj.entanglement_entropy_segment2(seg, n=n_))
-        want.append(ent(np.linalg.eigvalsh(ref.rho(seg)).clip(0, None)))
-        return {'got': cl(got + spec_got), 'want': cl(want + spec_want), 'tol': 1e-8}
+        got.append(call(obj, 'entanglement_entropy_segment2', seg, n=n_))
+        want.append(ent(rho_eigs(ref.rho(seg))))
+        return {'got': cl(got + spec_got), 'want': cl(want + spec_want), 'tol': ent_tol(n_)}
+    if k == 'ent_bonds':
+        # entanglement_entropy(n, bonds, for_matrix_S): entropy of the squared Schmidt values of the dense state at the documented bonds
+        kw = kw_of(m)
+        n_ = kw.get('n', 1)
+        got = call(obj, 'entanglement_entropy', **kw)
+        bonds = kw.get('bonds')
+        if bonds is None:    # documented default: the non-trivial bonds
+            bonds = list(range(1, L)) if obj.bc == 'finite' else list(range(0, L)) if obj.bc == 'infinite' else list(range(0, L + 1))
+        elif isinstance(bonds, int):
+            bonds = [bonds]
+        want = [entropy_dense(schmidt_probs(ref, obj, b), n_) for b in bonds]
+        return {'got': cl(got), 'want': cl(want), 'tol': 1e-8}
+    if k == 'ent_matrixS':
+        # the same state with the basis of the Schmidt states left of bond b rotated by a unitary U: S[b] -> U diag(S[b]) is a
+        # matrix (the B form tensors do not change); documented: ValueError by default, the entropy with for_matrix_S=True
+        import tenpy.linalg.np_conserved as npc
+        b, n_ = m['bond'], nval(m['n'])
+        psi2 = obj.copy()
+        S = np.asarray(psi2.get_SL(b))
+        chi = len(S)
+        Z = rng.normal(size=(chi, chi)) + 1j * rng.normal(size=(chi, chi))
+        U, _ = np.linalg.qr(Z)
+        leg = psi2.get_B(b, form=None).get_leg('vL')
+        psi2.set_SL(b, npc.Array.from_ndarray(U @ np.diag(S), [leg, leg.conj()], labels=['vL', 'vR']))
+        got = call(psi2, 'entanglement_entropy', n=n_, bonds=[b], for_matrix_S=True)
+        try:
+            psi2.entanglement_entropy(n=n_, bonds=[b])
+            raised = 0.0
+        except ValueError:
+            raised = 1.0
+        return {'got': cl(list(got) + [raised]), 'want': cl([entropy_dense(schmidt_probs(ref, obj, b), n_), 1.0]), 'tol': 1e-8, 'chi': chi}
+    if k == 'ent_seg':
+        # entanglement_entropy_segment(segment, first_site, n): entropy of the dense reduced density matrix of the sites i0 + segment
+        kw = kw_of(m)
+        n_ = kw.get('n', 1)
+        got = call(obj, 'entanglement_entropy_segment', **kw)
+        seg = sorted(kw.get('segment', [0]))
+        first = kw.get('first_site')
+        if first is None:   # documented default
+            first = list(range(L - seg[-1])) if obj.finite else list(range(L))
+        want = [entropy_dense(rho_eigs(ref.rho([i0 + j for j in seg])), n_) for i0 in first]
+        return {'got': cl(got), 'want': cl(want), 'tol': ent_tol(n_)}
+    if k == 'ent_seg2':
+        kw = kw_of(m)
+        n_ = kw.get('n', 1)
+        got = call(obj, 'entanglement_entropy_segment2', **kw)
+        want = entropy_dense(rho_eigs(ref.rho(sorted(kw['segment']))), n_)
+        return {'got': cl([got]), 'want': cl([want]), 'tol': ent_tol(n_)}
+    if k == 'spectrum':
+        # entanglement_spectrum(by_charge): -log of the squared Schmidt values on the non-trivial bonds; by_charge=True (finite chains):
+        # separately for every value of the total charge of the sites left of the bond
+        by_charge = m.get('by_charge', False)
+        res = call(obj, 'entanglement_spectrum', by_charge=by_charge) if 'by_charge' in m else call(obj, 'entanglement_spectrum')
+        bonds = list(range(1, L)) if obj.bc == 'finite' else list(range(0, L)) if obj.bc == 'infinite' else list(range(0, L + 1))
+        if len(res) != len(bonds):
+            return {'got': cl([len(res)]), 'want': cl([len(bonds)])}
+        got, want = [], []
+
+        def put(a, b_):
+            a = np.sort(np.asarray(a, dtype=float))[::-1]
+            b_ = np.sort(np.asarray(b_, dtype=float))[::-1]
+            a, b_ = a[a > 1e-20], b_[b_ > 1e-20]
+            nmax = max(len(a), len(b_))
+            got.extend(list(a) + [0.0] * (nmax - len(a)))
+            want.extend(list(b_) + [0.0] * (nmax - len(b_)))
+        if not by_charge:
+            for b, xi in zip(bonds, res):
+                xi = np.asarray(xi)
+                if np.any(np.diff(xi) < 0):
+                    return {'got': cl([0]), 'want': cl([1]), 'msg': 'spectrum not sorted'}
+                put(np.exp(-xi), schmidt_probs(ref, obj, b))
+            return {'got': cl(got), 'want': cl(want), 'tol': 1e-9}
+        chinfo = chain.sites[0].leg.chinfo
+        th = gen.dense_window(obj, 0, L)
+        qflat = [s_.leg.to_qflat() for s_ in chain.sites]
+        for b, blocks in zip(bonds, res):
+            mat = th.reshape(int(np.prod(th.shape[:1 + b])), -1)
+            qn = chinfo.qnumber
+            qrow = np.zeros((1, qn), dtype=int)
+            for s_ in range(b):
+                qrow = (qrow[:, None, :] + qflat[s_][None, :, :]).reshape(qrow.shape[0] * qflat[s_].shape[0], qn)
+            qrow = chinfo.make_valid(qrow) if qn else qrow
+            dense = {}
+            for q in set(tuple(int(x) for x in r_) for r_ in qrow):
+                sel = np.all(qrow == np.array(q)[None, :], axis=1)
+                pq = np.linalg.svd(mat[sel, :], compute_uv=False) ** 2
+                if np.any(pq > 1e-20):
+                    dense[q] = pq
+            impl = {}
+            for q, xi in blocks:
+                q = tuple(int(x) for x in chinfo.make_valid(q))
+                impl[q] = np.concatenate([impl.get(q, np.zeros(0)), np.exp(-np.asarray(xi))])
+            for q in sorted(set(dense) | set(q for q, v_ in impl.items() if np.any(v_ > 1e-20))):
+                put(impl.get(q, []), dense.get(q, []))
+        return {'got': cl(got), 'want': cl(want), 'tol': 1e-9}
     if k == 'rho':
         seg = m['segment']
-        rho = obj.get_rho_segment(seg)
+        rho = call(obj, 'get_rho_segment', seg)
         n = len(seg)
         arr = rho.itranspose(['p%d' % t for t in range(n)] + ['p%d*' % t for t in range(n)]).to_ndarray()
         # to doc bases
@@ -284,21 +514,35 @@ def measure(ref, psi_or_env, m, rng):
         D = int(np.prod(arr.shape[:n]))
         return {'got': cl(arr.reshape(D, D)), 'want': cl(ref.rho(sorted(seg)))}
     if k == 'mutinf':
-        coords, mi = obj.mutinf_two_site(max_range=m.get('max_range'))
+        # I(i:j) = S_n(i) + S_n(j) - S_n(i, j) with the SAME entropy S_n of the dense reduced density matrices for all three terms
+        kw = kw_of(m)
+        n_ = kw.get('n', 1)
+        coords, mi = call(obj, 'mutinf_two_site', **kw)
 
         def S(rho):
-            p = np.linalg.eigvalsh((rho + rho.conj().T) / 2)
-            p = p[p > 1e-30]
-            return float(-np.sum(p * np.log(p)))
+            return entropy_dense(rho_eigs(rho), n_)
+        coords = [[int(a), int(b)] for a, b in coords]
+        mr = kw.get('max_range')
+        if mr is not None or obj.finite:
+            # documented: all pairs i < j with |i - j| <= max_range (None: L - 1), i in the unit cell / chain
+            mr_ = L - 1 if mr is None else mr
+            doc_coords = [[i, j] for i in range(L) for j in range(i + 1, min(L, i + mr_ + 1) if obj.finite else i + mr_ + 1)]
+            if coords != doc_coords:
+                return {'got': cl([len(coords)]), 'want': cl([len(doc_coords)]), 'msg': 'coords %s, documented %s' % (coords[:8], doc_coords[:8]),
+                        'coords_differ': True}
         want = [S(ref.rho([i])) + S(ref.rho([j])) - S(ref.rho([i, j])) for i, j in coords]
-        ee = obj.entanglement_entropy_segment(segment=[0, 1]) if m.get('seg2') else []
-        want2 = [S(ref.rho([i, i + 1])) for i in range(len(ee))]
-        return {'got': cl(list(mi) + list(ee)), 'want': cl(want + want2), 'coords': [[int(a), int(b)] for a, b in coords], 'tol': 1e-8}
+        return {'got': cl(list(mi)), 'want': cl(want), 'coords': coords, 'tol': 3 * ent_tol(n_)}
     if k == 'prob_charge':
         b = m['bond']
-        charges, ps = obj.probability_per_charge(b)
-        avg = obj.average_charge(b)
-        var = obj.charge_variance(b)
+        if m.get('default_bond'):       # documented default bond=0: no site left of the bond
+            assert b == 0
+            charges, ps = call(obj, 'probability_per_charge')
+            avg = call(obj, 'average_charge')
+            var = call(obj, 'charge_variance')
+        else:
+            charges, ps = call(obj, 'probability_per_charge', b)
+            avg = call(obj, 'average_charge', b)
+            var = call(obj, 'charge_variance', b)
         # dense: distribution of the total charge of the sites left of the bond (finite chain)
         lo0, docs, tb, tk = ref.window(0, L - 1)
         prob = np.abs(tk.reshape([d.dim for d in docs])) ** 2
@@ -327,7 +571,13 @@ def measure(ref, psi_or_env, m, rng):
     if k == 'sample':
         r = np.random.default_rng(m['seed'])
         first, last = m.get('first', 0), m.get('last', L - 1)
-        sig, w = obj.sample_measurements(first, last, ops=m.get('ops'), rng=r, complex_amplitude=m.get('complex_amplitude', True))
+        skw = {'ops': m.get('ops'), 'rng': r}
+        if 'complex_amplitude' in m:
+            skw['complex_amplitude'] = m['complex_amplitude']
+        if 'first' in m or 'last' in m:
+            sig, w = call(obj, 'sample_measurements', first, last, **skw)
+        else:
+            sig, w = call(obj, 'sample_measurements', **skw)
         lo0, docs, tb, tk = ref.window(first, last)
         n = tk.ndim - 2
         if m.get('ops') is None:
@@ -352,6 +602,41 @@ def measure(ref, psi_or_env, m, rng):
             amp = None
         return {'sigmas': [float(s) for s in sig], 'weight': cl([w]), 'prob': prob, 'amp': cl([amp]) if amp is not None else None,
                 'complex_amplitude': m.get('complex_amplitude', True), 'n_sites': last - first + 1}
+    if k == 'corr_len':
+        # correlation_length2 / correlation_length(target, charge_sector, return_charges) of an infinite MPS without charges:
+        # xi_k = -L / log|lambda_k / lambda_0| with the eigenvalues (by magnitude) of the dense transfer matrix of one unit cell
+        kw = dict(m.get('kw', {}))
+        target = kw.get('target', 1)
+        E = None
+        for i in range(L):
+            B = obj.get_B(i, form='B').itranspose(['vL', 'p', 'vR']).to_ndarray()
+            T = np.einsum('apb,cpd->acbd', B.conj(), B)
+            T = T.reshape(T.shape[0] * T.shape[1], -1)
+            E = T if E is None else E @ T
+        ev = np.sort(np.abs(np.linalg.eigvals(E)))[::-1]
+        want = [-L / np.log(ev[t] / ev[0]) for t in range(1, target + 1)]
+        got2 = call(obj, 'correlation_length2', **kw)
+        got1 = call(obj, 'correlation_length', **kw)
+        if kw.get('return_charges'):
+            got2, got1 = got2[0], got1[0]
+        got2, got1 = np.atleast_1d(got2), np.atleast_1d(got1)
+        # documented units: horizontal lattice spacings (correlation_length2) resp. MPS sites (correlation_length)
+        return {'got': cl(list(got2) + list(got1)), 'want': cl([x / obj.N_sites_per_hor_spacing for x in want] + want),
+                'tol': 1e-6, 'gaps': [float(ev[t] - ev[t + 1]) for t in range(0, target + 1) if t + 1 < len(ev)]}
+    if k == 'translate':
+        # <psi| T^shift |phi> on a finite chain of equal sites; T moves the content of site i to site i + 1 (periodically)
+        phi, _ = gen.random_finite_mps(rng, chain, cplx=True, chi_max=m.get('chi_b'), sector=_sector(chain, obj))
+        got = call(obj, 'overlap_translate_finite', phi, m['shift']) if 'shift' in m else call(obj, 'overlap_translate_finite', phi)
+        va = gen.dense_window(obj, 0, L).reshape([s_.dim for s_ in chain.sites])
+        vb = gen.dense_window(phi, 0, L).reshape([s_.dim for s_ in chain.sites])
+        sh = m.get('shift', 1)
+        vb = np.transpose(vb, [(i - sh) % L for i in range(L)])      # new site i holds the old site i - shift
+        return {'got': cl([got]), 'want': cl([np.vdot(va.reshape(-1), vb.reshape(-1))])}
+    if k == 'full_contraction':
+        got = [call(obj, 'full_contraction', i0) for i0 in m['i0']]
+        lo0, docs, tb, tk = ref.window(0, L - 1)
+        want = np.vdot(tb.reshape(-1), tk.reshape(-1)) * obj.bra.norm * obj.ket.norm
+        return {'got': cl(got), 'want': cl([want] * len(got))}
     raise ValueError(k)
 
 
@@ -378,8 +663,10 @@ def run_state(case):
     ref = Ref(ch, bra, psi)
     out = {'chi': [int(x) for x in psi.chi], 'records': []}
     for m in case['measure']:
+        del CALL_LOG[:]
         try:
             r = measure(ref, obj, m, rng)
+            r['calls'] = [list(c) for c in CALL_LOG]
         except Exception as e:
             r = {'error': type(e).__name__, 'msg': str(e)[:300], 'tb': traceback.format_exc()[-500:]}
         out['records'].append(r)
@@ -401,15 +688,17 @@ def run_overlap(case):
         b, _ = gen.random_finite_mps(rng, ch, cplx=True, chi_max=case.get('chi_b'), sector=q if not case.get('other_sector') else None)
         a.norm = case.get('norm_a', 1.0)
         b.norm = case.get('norm_b', 1.0)
-        got = a.overlap(b)
-        got2 = a.overlap(b, ignore_form=True)
+        del CALL_LOG[:]
+        got = call(a, 'overlap', b)
+        got2 = call(a, 'overlap', b, ignore_form=True)
         va = gen.dense_window(a, 0, L).reshape(-1)
         vb = gen.dense_window(b, 0, L).reshape(-1)
         want = np.vdot(va, vb) * a.norm * b.norm
-        return {'got': cl([got, got2]), 'want': cl([want, want])}
+        return {'got': cl([got, got2]), 'want': cl([want, want]), 'calls': [list(c) for c in CALL_LOG]}
     a = gen.random_infinite_mps(rng, ch, chi=case.get('chi_a', 2))
     b = gen.random_infinite_mps(rng, ch, chi=case.get('chi_b', 3)) if not case.get('same') else a
-    got = a.overlap(b, understood_infinite=True, charge_sector=case.get('charge_sector'))
+    del CALL_LOG[:]
+    got = call(a, 'overlap', b, understood_infinite=True, charge_sector=case.get('charge_sector'))
     E = None
     for i in range(L):
         A = a.get_B(i, form='B').itranspose(['vL', 'p', 'vR']).to_ndarray()
@@ -419,7 +708,7 @@ def run_overlap(case):
         E = T if E is None else E @ T
     ev = np.linalg.eigvals(E)
     want = ev[np.argmax(np.abs(ev))]
-    return {'got': cl([got]), 'want': cl([want]), 'gap': float(np.sort(np.abs(ev))[-1] - (np.sort(np.abs(ev))[-2] if len(ev) > 1 else 0))}
+    return {'got': cl([got]), 'want': cl([want]), 'calls': [list(c) for c in CALL_LOG], 'gap': float(np.sort(np.abs(ev))[-1] - (np.sort(np.abs(ev))[-2] if len(ev) > 1 else 0))}
 
 
 def run_ops_list(case):
@@ -708,15 +997,26 @@ MEASURE_PATTERNS = ('expectation_value', 'correlation_function', 'term_', 'overl
 
 
 def run_reflect(case):
-    """public methods of BaseMPSExpectationValue / MPS / MPSEnvironment of the tree under test whose name looks like a measurement"""
+    """public methods of BaseMPSExpectationValue / MPS / MPSEnvironment of the tree under test whose name looks like a measurement;
+    'all': EVERY public method of these classes with the names of its parameters (options)"""
     import inspect
     import tenpy.networks.mps as M
-    out = {}
+    out = {'all': {}}
     for cname in ('BaseMPSExpectationValue', 'MPS', 'MPSEnvironment'):
         c = getattr(M, cname)
         names = [n for n, f in inspect.getmembers(c, predicate=inspect.isfunction)
                  if not n.startswith('_') and any(p in n for p in MEASURE_PATTERNS)]
         out[cname] = sorted(names)
+        out['all'][cname] = {}
+        for n in dir(c):
+            if n.startswith('_'):
+                continue
+            f = inspect.getattr_static(c, n)
+            if isinstance(f, (staticmethod, classmethod)):
+                f = f.__func__
+            if not inspect.isfunction(f):
+                continue        # properties / attributes
+            out['all'][cname][n] = [pn for pn in inspect.signature(f).parameters if pn not in ('self', 'cls')]
     return out
 
 
